@@ -214,6 +214,17 @@ func (s *c10Sim) apply(op c10Op) {
 		if wasBlocked {
 			s.tag("while-blocked/advance")
 		}
+	case "advbatch":
+		s.now += op.D
+		if !s.stopped {
+			if d, ok := s.pending[op.K]; ok && d <= s.now {
+				s.tag("debounce/BATCH AT THE EXPIRY OF ITS KEY'S TIMER, before the queue has popped it (race)")
+				s.ambiguous = true
+			} else if ok {
+				s.tag("debounce/batch replaces a pending value inside the interval")
+			}
+			s.pending[op.K] = s.now + s.iv
+		}
 	case "read":
 		if sb := s.subs[op.I]; !sb.prompt {
 			sb.wants++
@@ -263,7 +274,7 @@ func c10Simulate(in c10Input) c10SimResult {
 	nb, nc, nm, closeAt := 0, 0, 0, -1
 	for i, op := range in.Ops {
 		switch op.Op {
-		case "batch":
+		case "batch", "advbatch":
 			nb++
 		case "cancel":
 			nc++
@@ -278,7 +289,7 @@ func c10Simulate(in c10Input) c10SimResult {
 	}
 	calls := 0
 	for _, op := range in.Ops {
-		if op.Op == "sub" || op.Op == "batch" || op.Op == "close" {
+		if op.Op == "sub" || op.Op == "batch" || op.Op == "advbatch" || op.Op == "close" {
 			calls++
 		}
 	}
